@@ -193,7 +193,9 @@ Proof.
     destruct (operand_sx_sim _ _ _ _ _ _ _ _ vf vf' Ho Hs1 E2 E2') as (-> & Hs2).
     { eapply pfx_trans; eauto. } { eapply pfx_trans; eauto. }
     { intros n Hn. apply (Hok (k, o) n). apply in_or_app. right. left. reflexivity. exact Hn. }
-    destruct (IH _ _ _ _ _ _ _ _ (Forall2_app Hd (Forall2_cons _ _ (conj eq_refl Ho) (Forall2_nil _))) Hs2 E3 E3' Hp Hp') as (-> & Hs3).
+    assert (Hd' : Forall2 shape_pair (done ++ [(k, o)]) (done' ++ [(k, o')])).
+    { apply Forall2_app. exact Hd. constructor. split. reflexivity. exact Ho. constructor. }
+    destruct (IH _ _ _ _ _ _ _ _ Hd' Hs2 E3 E3' Hp Hp') as (-> & Hs3).
     { intros ko n Hin. apply Hok. rewrite <- app_assoc in Hin. exact Hin. }
     split. reflexivity. exact Hs3.
 Qed.
@@ -211,3 +213,150 @@ Proof.
 Qed.
 Lemma limit_sx_pfx : forall vo o vo1 x, limit_sx vo o = (vo1, x) -> pfx vo vo1.
 Proof. intros vo o vo1 x H. apply (limit_sx_sem _ _ _ _ H). Qed.
+
+Lemma shape_operand_vars : forall l l', Forall2 shape_operand l l' ->
+  flat_map (fun o => match o with OVar n => [n] | _ => [] end) l = flat_map (fun o => match o with OVar n => [n] | _ => [] end) l'.
+Proof.
+  intros l l' H. induction H as [|o o' l l' Ho Hrest IH]. reflexivity.
+  cbn [flat_map]. rewrite IH. f_equal.
+  destruct o as [[| | | |]|], o' as [[| | | |]|]; simpl in Ho; try discriminate; try reflexivity; congruence.
+Qed.
+
+Lemma shape_vars : forall q q', same_shape q q' -> query_vars q = query_vars q'.
+Proof.
+  intros q q' (_ & _ & Hf & _ & Hfi & Hsk & Hp). unfold query_vars. apply shape_operand_vars.
+  apply Forall2_app.
+  - clear -Hf. induction Hf as [|f f' l l' (_ & _ & Hv) Hrest IH]; cbn [map]; constructor; assumption.
+  - apply Forall2_app.
+    + unfold shape_paging in Hp. destruct (q_paging q), (q_paging q'); try contradiction; cbn [paging_values]; try constructor; exact Hp.
+    + rewrite Hfi, Hsk. clear. induction ([q_first q'] ++ match q_skip q' with Some o => [o] | None => [] end) as [|o l IH]; constructor.
+      destruct o as [[| | | |]|]; simpl; auto. exact IH.
+Qed.
+
+Lemma capture_var_ok : forall m q vf s, compile m q = (vf, s) -> k_capture m q = false -> forall n, In n (query_vars q) -> var_ok vf n.
+Proof.
+  intros m q vf s Ec K n Hn p Hfm. destruct (fst p) eqn:E; [exfalso | reflexivity].
+  unfold k_capture in K. rewrite Ec in K. cbn [fst] in K.
+  assert (Hex : existsb (fun n0 => match find (fun p0 : pentry => str_eqb n0 (snd p0)) vf with Some p0 => fst p0 | None => false end) (query_vars q) = true).
+  { apply existsb_exists. exists n. split. exact Hn. unfold fm in Hfm. rewrite Hfm. exact E. }
+  congruence.
+Qed.
+
+Lemma in_vars : forall (l : list operand) o n, In o l -> o = OVar n ->
+  In n (flat_map (fun o => match o with OVar n => [n] | _ => [] end) l).
+Proof. intros l o n Hin ->. apply in_flat_map. exists (OVar n). split. exact Hin. left. reflexivity. Qed.
+
+Theorem nostructure_stmt : forall m q q',
+  same_shape q q' -> k_capture m q = false -> k_capture m q' = false ->
+  snd (compile m q) = snd (compile m q').
+Proof.
+  intros m q q' Hsh K K'. pose proof (shape_vars q q' Hsh) as Hvars.
+  destruct Hsh as (Hal & Hsel & Hfl & Hord & Hfi & Hsk & Hpg).
+  destruct (compile m q) as [vf s] eqn:Ec. destruct (compile m q') as [vf' s'] eqn:Ec'. cbn [snd].
+  pose proof (capture_var_ok m q vf s Ec K) as Hok. pose proof (capture_var_ok m q' vf' s' Ec' K') as Hok'. rewrite <- Hvars in Hok'.
+  unfold compile in Ec, Ec'. rewrite <- Hsel in Ec'.
+  destruct (compile_sel m [] (q_sel q)) as [vo1 sel] eqn:E1.
+  destruct (compile_filters m q vo1 (q_filters q)) as [vo2 fs] eqn:E2.
+  destruct (compile_filters m q' vo1 (q_filters q')) as [vo2' fs'] eqn:E2'.
+  destruct (compile_disjs (is_before (q_paging q)) vo2 [] (combine (q_order q) (paging_values (q_paging q)))) as [vo3 pg] eqn:E3.
+  destruct (compile_disjs (is_before (q_paging q')) vo2' [] (combine (q_order q') (paging_values (q_paging q')))) as [vo3' pg'] eqn:E3'.
+  destruct (compile_limit vo3 q) as [[vo4 lim] off] eqn:E4. destruct (compile_limit vo3' q') as [[vo4' lim'] off'] eqn:E4'.
+  injection Ec as <- <-. injection Ec' as <- <-.
+  (* prefixes *)
+  pose proof (compile_disjs_pfx _ _ _ _ _ _ E3) as P3. pose proof (compile_disjs_pfx _ _ _ _ _ _ E3') as P3'.
+  assert (P4 : pfx vo3 vo4). { unfold compile_limit in E4. destruct (limit_sx vo3 (q_first q)) as [a l1] eqn:A.
+    pose proof (limit_sx_pfx _ _ _ _ A). destruct (q_skip q). destruct (limit_sx a o) as [b l2] eqn:B. injection E4 as <- _ _.
+    eapply pfx_trans; eauto. eapply limit_sx_pfx; eauto. injection E4 as <- _ _. assumption. }
+  assert (P4' : pfx vo3' vo4'). { unfold compile_limit in E4'. destruct (limit_sx vo3' (q_first q')) as [a l1] eqn:A.
+    pose proof (limit_sx_pfx _ _ _ _ A). destruct (q_skip q'). destruct (limit_sx a o) as [b l2] eqn:B. injection E4' as <- _ _.
+    eapply pfx_trans; eauto. eapply limit_sx_pfx; eauto. injection E4' as <- _ _. assumption. }
+  (* filters *)
+  destruct (compile_filters_sim m q q' _ _ _ _ _ _ _ _ vo4 vo4' Hsel Hfl (sim_refl vo1) E2 E2') as (-> & S2).
+  { eapply pfx_trans; eauto. } { eapply pfx_trans; eauto. }
+  { intros f n Hin Hv. assert (Hn : In n (query_vars q)).
+    { unfold query_vars. eapply in_vars; [|exact Hv]. apply in_or_app. left. apply in_map. exact Hin. }
+    split; [apply Hok | apply Hok']; exact Hn. }
+  (* paging *)
+  assert (Hbefore : is_before (q_paging q) = is_before (q_paging q')).
+  { unfold shape_paging in Hpg. destruct (q_paging q), (q_paging q'); try contradiction; reflexivity. }
+  assert (Hpairs : Forall2 shape_pair (combine (q_order q) (paging_values (q_paging q))) (combine (q_order q') (paging_values (q_paging q')))).
+  { rewrite <- Hord.
+    assert (Hvals : Forall2 shape_operand (paging_values (q_paging q)) (paging_values (q_paging q'))).
+    { unfold shape_paging in Hpg. destruct (q_paging q), (q_paging q'); try contradiction; cbn [paging_values]; try constructor; exact Hpg. }
+    clear -Hvals. revert Hvals. generalize (paging_values (q_paging q)) (paging_values (q_paging q')) (q_order q).
+    intros l l' ord H. revert ord. induction H as [|o o' l l' Ho Hrest IH]; intros ord; destruct ord as [|k ord]; cbn [combine]; try constructor.
+    split. reflexivity. exact Ho. apply IH. }
+  rewrite <- Hbefore in E3'.
+  destruct (compile_disjs_sim _ _ _ _ _ _ _ _ _ _ _ vo4 vo4' Hpairs (Forall2_nil _) S2 E3 E3' P4 P4') as (-> & S3).
+  { intros ko n Hin Hv. cbn [app] in Hin. assert (Hn : In n (query_vars q)).
+    { unfold query_vars. eapply in_vars; [|exact Hv]. apply in_or_app. right. apply in_or_app. left.
+      destruct ko as [k o]. eapply in_combine_r. exact Hin. }
+    split; [apply Hok | apply Hok']; exact Hn. }
+  (* first / skip *)
+  unfold compile_limit in E4, E4'. rewrite <- Hfi, <- Hsk in E4'.
+  destruct (limit_sx vo3 (q_first q)) as [a l1] eqn:A. destruct (limit_sx vo3' (q_first q)) as [a' l1'] eqn:A'.
+  assert (Hfirst : l1 = l1' /\ sim a a').
+  { apply (limit_sx_sim (q_first q) vo3 vo3' a a' l1 l1' vo4 vo4' S3 A A').
+    - destruct (q_skip q). destruct (limit_sx a o) as [b l2] eqn:B. injection E4 as <- _ _. eapply limit_sx_pfx; eauto. injection E4 as <- _ _. apply pfx_refl.
+    - destruct (q_skip q). destruct (limit_sx a' o) as [b l2] eqn:B. injection E4' as <- _ _. eapply limit_sx_pfx; eauto. injection E4' as <- _ _. apply pfx_refl.
+    - intros n Hn. assert (Hin : In n (query_vars q)).
+      { unfold query_vars. eapply in_vars; [|exact Hn]. apply in_or_app. right. apply in_or_app. right. apply in_or_app. left. left. reflexivity. }
+      split; [apply Hok | apply Hok']; exact Hin. }
+  destruct Hfirst as [-> S4].
+  destruct (q_skip q) as [so|] eqn:Esk.
+  - destruct (limit_sx a so) as [b l2] eqn:B. destruct (limit_sx a' so) as [b' l2'] eqn:B'.
+    injection E4 as <- <- <-. injection E4' as <- <- <-.
+    destruct (limit_sx_sim so a a' _ _ _ _ _ _ S4 B B' (pfx_refl _) (pfx_refl _)) as (-> & _).
+    { intros n Hn. assert (Hin : In n (query_vars q)).
+      { unfold query_vars. rewrite Esk. eapply in_vars; [|exact Hn]. apply in_or_app. right. apply in_or_app. right. apply in_or_app. right. left. reflexivity. }
+      split; [apply Hok | apply Hok']; exact Hin. }
+    unfold sql_aliased_name. rewrite Hal, Hord. reflexivity.
+  - injection E4 as <- <- <-. injection E4' as <- <- <-.
+    unfold sql_aliased_name. rewrite Hal, Hord. reflexivity.
+Qed.
+
+(* the SQL text does not depend on the characters of the String literals of the query *)
+Theorem nostructure : forall m q q',
+  same_shape q q' -> k_capture m q = false -> k_capture m q' = false -> sql_text m q = sql_text m q'.
+Proof. intros m q q' H K K'. unfold sql_text. rewrite (nostructure_stmt m q q' H K K'). reflexivity. Qed.
+
+(* in particular for the neutral version used by the harness *)
+Lemma neutral_same_shape : forall q, same_shape q (neutral_query q).
+Proof.
+  intros q. unfold same_shape, neutral_query. cbn [q_alias q_sel q_filters q_order q_first q_skip q_paging].
+  repeat split.
+  - induction (q_filters q) as [|f l IH]; cbn [map]; constructor. 2: exact IH.
+    unfold shape_filter. cbn [fl_ref fl_op fl_val]. repeat split. destruct (fl_val f) as [[| | | |]|]; simpl; auto.
+  - assert (H : forall vs, Forall2 shape_operand vs (map neutral_operand vs)).
+    { induction vs as [|o vs IH]; cbn [map]; constructor. destruct o as [[| | | |]|]; simpl; auto. exact IH. }
+    destruct (q_paging q); simpl; auto.
+Qed.
+
+Theorem shape_spec : forall m q, known_C04 (CShape m q) = [] -> spec_C04 (CShape m q) (run_C04 (CShape m q)) = true.
+Proof.
+  intros m q Hk. cbn [known_C04] in Hk. unfold cls in Hk.
+  destruct (k_capture m q || k_capture m (neutral_query q)) eqn:E; try discriminate.
+  apply orb_false_elim in E. destruct E as [K K'].
+  cbn [spec_C04 run_C04]. rewrite (nostructure m q (neutral_query q) (neutral_same_shape q) K K'), str_eqb_refl. reflexivity.
+Qed.
+
+(* integers, floats, booleans: the model is the identity, the oracle asks for the identity *)
+Lemma zlist_eqb_refl : forall l, zlist_eqb l l = true.
+Proof. induction l as [|x l IH]. reflexivity. unfold zlist_eqb in *. cbn [list_eqb]. rewrite Z.eqb_refl, IH. reflexivity. Qed.
+Theorem scalars_spec : forall c,
+  match c with CInt _ _ | CBool _ _ => True | CFlt _ b tb de => b = tb /\ de = true | _ => False end ->
+  spec_C04 c (run_C04 c) = true.
+Proof.
+  intros c H. destruct c; try contradiction; cbn [spec_C04 run_C04].
+  - apply zlist_eqb_refl.
+  - destruct H as [-> ->]. rewrite Z.eqb_refl. destruct h; apply zlist_eqb_refl.
+  - apply zlist_eqb_refl.
+Qed.
+
+(* the unrestricted property does not hold of the faithful model *)
+Definition C04_full : Prop :=
+  forall c, match c with
+            | CStr h w => intended h w <> None
+            | CFlt _ b tb _ => b = tb
+            | _ => True
+            end -> spec_C04 c (run_C04 c) = true.
